@@ -76,13 +76,13 @@ def fn_at(text_bytes, fn_index, off):
     return best[2] if best else "?"
 
 
-def label_at(text, boff_start):
-    """label on the line containing the byte offset, else on preceding lines of the same clause list"""
+def label_at(text, boff_start, boff_end=None):
+    """label on the line(s) covered by the span (a clause may span several lines; the marker ends it)"""
     b = text.encode("utf-8")
     ls = b.rfind(b"\n", 0, boff_start) + 1
-    le = b.find(b"\n", boff_start)
-    line = b[ls:le if le >= 0 else len(b)].decode("utf-8", "replace")
-    m = LABEL_RE.search(line)
+    le = b.find(b"\n", max(boff_start, (boff_end or boff_start) - 1))
+    seg = b[ls:le if le >= 0 else len(b)].decode("utf-8", "replace")
+    m = LABEL_RE.search(seg)
     if m:
         return m.group(1)
     return None
@@ -126,7 +126,7 @@ def run_unit(name, extra_args=(), variant=None, mutate_text=None, rlimit=None, s
         text = mutate_text(text)
     ur.text, ur.regions = text, regions
     os.makedirs(BUILD, exist_ok=True)
-    suffix = "" if not variant else "." + variant
+    suffix = "" if not variant else "_" + variant
     path = os.path.join(BUILD, f"{name}{suffix}.rs")
     with open(path, "w", encoding="utf-8") as f:
         f.write(text)
@@ -178,7 +178,7 @@ def run_unit(name, extra_args=(), variant=None, mutate_text=None, rlimit=None, s
         label = None
         # label: secondary span (failed pre/postcondition clause), else the primary span's own line
         for s in sec + prim:
-            label = label_at(text, s["byte_start"])
+            label = label_at(text, s["byte_start"], s["byte_end"])
             if label:
                 break
         piece = reg.get("piece") if reg else None
